@@ -40,6 +40,12 @@ func (s *Sim) stepExt(op *Op) bool {
 		s.opRestart()
 	case "pubrel":
 		sl := s.Slots[op.C]
+		if op.PID == 0 && !op.Collide {
+			if len(sl.heldQ2) == 0 {
+				return true
+			}
+			op.PID, sl.heldQ2 = sl.heldQ2[0], sl.heldQ2[1:]
+		}
 		if op.Collide {
 			// use an id that the broker has outstanding towards this client (its own outbound id space)
 			ids := make([]int, 0, len(sl.inflight))
@@ -53,6 +59,17 @@ func (s *Sim) stepExt(op *Op) bool {
 				sl.Sess.Taint["pid_collision"] = true
 				s.M.count("pubrel_with_colliding_id")
 			}
+		}
+		for i, h := range sl.heldQ2 {
+			if h == op.PID {
+				sl.heldQ2 = append(sl.heldQ2[:i:i], sl.heldQ2[i+1:]...)
+				break
+			}
+		}
+		if _, out := sl.inflight[op.PID]; out && sl.Sess.InQ2[op.PID] == nil && !sl.Sess.Taint["pid_collision"] {
+			// not the release of an exchange of its own: this PUBREL names an id the broker has outstanding towards the client
+			sl.Sess.Taint["pid_collision"] = true
+			s.M.count("pubrel_with_colliding_id")
 		}
 		s.clientSend(sl, &rc.Packet{Type: rc.PUBREL, Version: sl.Ver, PacketID: op.PID})
 		what := "PUBCOMP for PUBREL"
@@ -78,6 +95,13 @@ func (s *Sim) stepExt(op *Op) bool {
 		s.Slots[op.C].Conn.MC.FailWriteAt(n)
 		s.Slots[op.C].faulted = true
 		s.M.count("write_faults_armed")
+	case "stall":
+		// backpressure: the connection stops accepting the broker's writes (Hold=true) or accepts them again; while it
+		// is stalled whatever is owed to it simply has not arrived yet (expectations stay open, see endStep)
+		sl := s.Slots[op.C]
+		sl.stalled = op.Hold
+		sl.Conn.MC.SetStall(op.Hold)
+		s.M.count("stall_toggles")
 	case "raw":
 		// handled by specialised checks
 	default:
